@@ -479,7 +479,7 @@ def run(ctx):
             yield c
         for _ in range(n):
             yield gen_case(rng, kinds)
-    pool = common.IsolatedPool("c13", "check_case_isolated", workers=8)
+    pool = common.IsolatedPool("c13", "check_case_isolated", workers=8, timeout=20 if ctx.tier == "quick" else 90)
     aborted = 0
     try:
         for case, res in pool.run(cases()):
